@@ -42,6 +42,10 @@ M = [
  ("M25", "log.go", "\tif l.opts.AutoSync {\n\t\tif err := l.writer.Sync(); err != nil {\n\t\t\treturn OffsetInvalid, err\n\t\t}\n\t}\n\n\treturn nextOffset, nil", "\tif l.opts.AutoSync && len(msgs) > 1 {\n\t\tif err := l.writer.Sync(); err != nil {\n\t\t\treturn OffsetInvalid, err\n\t\t}\n\t}\n\n\treturn nextOffset, nil", ["C06"], "AutoSync skipped for single-message batches"),
  ("M26", "pkg/segment/segment.go", "\tif err := migratedLog.SyncAndClose(); err != nil {", "\tif err := migratedLog.Close(); err != nil {", ["C06"], "Migrate: no fsync of the migrated log before the rename"),
  ("M27", "log_reader.go", "\tif r.messages == nil || r.messagesInuse.Load() > 0 {\n\t\treturn nil\n\t}\n\n\tif err := r.messages.Close(); err != nil {\n\t\treturn err\n\t}\n\tr.messages = nil\n\treturn nil\n}\n\nfunc (r *reader) Close()", "\tif r.messages == nil {\n\t\treturn nil\n\t}\n\n\tif err := r.messages.Close(); err != nil {\n\t\treturn err\n\t}\n\tr.messages = nil\n\treturn nil\n}\n\nfunc (r *reader) Close()", ["C08"], "GC unmaps a reader's log while a Consume is using it"),
+ ("M28", "log_blocking.go", "\treturn &blockingLog{l, notify.NewOffset(next)}, nil", "\t_ = next\n\treturn &blockingLog{l, notify.NewOffset(0)}, nil", ["C18"], "WrapBlocking: the notifier of a wrapper opened over an existing log starts at 0"),
+ ("M29", "typed.go", "\ttmessages := make([]TMessage[K, V], len(messages))\n\tfor i, msg := range messages {\n\t\ttmessages[i], err = l.decode(msg)\n\t\tif err != nil {\n\t\t\treturn OffsetInvalid, nil, err\n\t\t}\n\t}\n\treturn nextOffset, tmessages, nil\n}\n\nfunc (l *tlog[K, V]) ConsumeByKey", "\ttmessages := make([]TMessage[K, V], len(messages))\n\tfor i, msg := range messages {\n\t\ttmessages[i], err = l.decode(msg)\n\t\tif err != nil {\n\t\t\treturn OffsetInvalid, nil, err\n\t\t}\n\t}\n\tif len(tmessages) > 2 {\n\t\ttmessages = tmessages[:2]\n\t}\n\treturn nextOffset, tmessages, nil\n}\n\nfunc (l *tlog[K, V]) ConsumeByKey", ["C01", "C03"], "typed Consume: returns at most two messages but the raw next offset"),
+ ("M30", "typed.go", "\tmsg, err := l.Log.GetByKey(kbytes)\n\tif err != nil {\n\t\treturn TMessage[K, V]{Offset: OffsetInvalid}, err\n\t}\n\treturn l.decode(msg)", "\toff, err := l.Log.OffsetByKey(kbytes)\n\tif err != nil {\n\t\treturn TMessage[K, V]{Offset: OffsetInvalid}, err\n\t}\n\tmsg, err := l.Log.Get(off + 1)\n\tif err != nil {\n\t\tmsg, err = l.Log.Get(off)\n\t}\n\tif err != nil {\n\t\treturn TMessage[K, V]{Offset: OffsetInvalid}, err\n\t}\n\treturn l.decode(msg)", ["C09"], "typed GetByKey: returns the message after the one found when there is one"),
+ ("M31", "delete.go", "\t\tdeletedSize += size\n\t\tfor _, msg := range deleted {\n\t\t\tdeletedOffsets[msg.Offset] = struct{}{}\n\t\t\tdelete(remainingOffsets, msg.Offset)\n\t\t}\n\n\t\tif err := backoff(ctx); err != nil {\n\t\t\treturn deletedOffsets, deletedSize, err\n\t\t}", "\t\tif err := backoff(ctx); err != nil {\n\t\t\treturn deletedOffsets, deletedSize, err\n\t\t}\n\t\tdeletedSize += size\n\t\tfor _, msg := range deleted {\n\t\t\tdeletedOffsets[msg.Offset] = struct{}{}\n\t\t\tdelete(remainingOffsets, msg.Offset)\n\t\t}", ["C12"], "DeleteMultiOffsets: a round stopped by the backoff is executed but not reported"),
 ]
 
 def sh(cmd, cwd=None, timeout=3600):
